@@ -2,6 +2,7 @@ import PkgModel.Generated.PySrc
 import PkgModel.Platform
 import PkgProofs.Lemmas.PyFn
 import PkgProofs.Props.Src.Tags
+import PkgProofs.Lemmas.SrcRobust
 /-!
 # Translated source of platform-tag helpers = the model (`PkgModel/Platform.lean`, C16)
 
@@ -52,7 +53,7 @@ theorem _mac_binary_formats_eq_model (v : List Nat) (cpu : Str) :
   have h104 : (PyVal.tuple [PyVal.int 10, PyVal.int 4]) = ofVersion [10, 4] := rfl
   have h105 : (PyVal.tuple [PyVal.int 10, PyVal.int 5]) = ofVersion [10, 5] := rfl
   have h106 : (PyVal.tuple [PyVal.int 10, PyVal.int 6]) = ofVersion [10, 6] := rfl
-  simp only [h104, h105, h106, cmp_tuple_lt, cmp_tuple_gt, PyRt.gt, PyRt.lt, ok_bind, pure_ok, eq_str, truthy_bool, contains,
+  simp only [h104, h105, h106, cmp_tuple_lt, cmp_tuple_gt, PyRt.gt, PyRt.lt, ok_bind, pure_ok, eq_str, truthy_bool, contains_set_str, contains,
     List.any_cons, List.any_nil, show ofString "x86_64" = sX86_64 from rfl, show ofString "i386" = sI386 from rfl,
     show ofString "ppc64" = sPpc64 from rfl, show ofString "ppc" = sPpc from rfl, show ofString "arm64" = sArm64 from rfl,
     show ofString "intel" = sIntel from rfl, show ofString "fat64" = sFat64 from rfl, show ofString "fat32" = sFat32 from rfl,
